@@ -197,6 +197,11 @@ func (a *AddressDecMap) Decode(r stdio.Reader) (err error) {
 		return errors.WithMessage(err, "decoding map length")
 	}
 
+	// An address map has at most one entry per backend.
+	if mapLen < 0 || int(mapLen) > len(backend) {
+		return errors.Errorf("invalid address map length: %d", mapLen)
+	}
+
 	*a = make(map[BackendID]Address, mapLen)
 	for i := range mapLen {
 		var idx int32
@@ -217,12 +222,20 @@ func (a *AddressDecMap) Decode(r stdio.Reader) (err error) {
 	return nil
 }
 
+// maxAddressMapArrayLen is the maximum length of an encoded array of address
+// maps. It equals the maximum number of channel participants.
+const maxAddressMapArrayLen = 1024
+
 // Decode decodes the array length first, then all AddressDecMaps in the array.
 func (a *AddressMapArray) Decode(r stdio.Reader) (err error) {
 	var mapLen int32
 	err = perunio.Decode(r, &mapLen)
 	if err != nil {
 		return errors.WithMessage(err, "decoding array length")
+	}
+
+	if mapLen < 0 || mapLen > maxAddressMapArrayLen {
+		return errors.Errorf("invalid address map array length: %d", mapLen)
 	}
 
 	a.Addr = make([]map[BackendID]Address, mapLen)
